@@ -34,11 +34,25 @@ def f64_of_bits(bits):
     return z3.fpBVToFP(z3.BitVecVal(bits, 64), F64)
 
 
+def _numeral(v):
+    """a closed term whose NaN bytes mention fresh sign/payload variables is not a numeral after simplification: decide NaN-ness
+    with the solver, otherwise take the (unique up to NaN encoding) value from a model"""
+    v = z3.simplify(v)
+    if z3.is_fp_value(v):
+        return v
+    s = z3.Solver(); s.set("timeout", 20000)
+    s.add(z3.Not(z3.fpIsNaN(v)))
+    r = s.check()
+    if r == z3.unsat:
+        return z3.fpNaN(v.sort())
+    if r == z3.sat:
+        return s.model().eval(v, model_completion=True)
+    raise Unsupported("cannot evaluate a floating-point term")
+
+
 def x87_repr(v):
     """z3 FP(15,64) numeral -> 'se:sig' as printed by the native binary (NaN -> 'nan')"""
-    v = z3.simplify(v)
-    if z3.is_fp(v) and (z3.is_fprm_value(v) is False):
-        pass
+    v = _numeral(v)
     if v.isNaN():
         return "nan"
     bv = z3.simplify(z3.fpToIEEEBV(v)).as_long()
@@ -55,7 +69,7 @@ def native_norm(s):
 
 
 def f64_repr(v):
-    v = z3.simplify(v)
+    v = _numeral(v)
     if v.isNaN():
         return "nan"
     return "%016x" % z3.simplify(z3.fpToIEEEBV(v)).as_long()
